@@ -452,9 +452,11 @@ impl PacketReceiver {
 #[cfg(uflow_verif)]
 impl PacketReceiver {
     pub fn verif_dump(&self) -> String {
-        format!("base={} end={} alloc={} crf={:x} wrf={}",
+        let stored: usize = self.data_entries.iter().map(|e| e.data.as_ref().map_or(0, |d| d.len())).sum();
+        format!("base={} end={} alloc={} crf={:x} wrf={} held={}",
                 self.base_id, self.end_id, self.assembly_window.verif_alloc(),
-                self.channel_ready_flags, self.window_ready_flag as u8)
+                self.channel_ready_flags, self.window_ready_flag as u8,
+                self.assembly_window.verif_held() + stored)
     }
 }
 
